@@ -165,6 +165,9 @@ func (w *W) c04NilShapes(t *gcore.Type, id string, c *dynamicpb.Message) {
 			return x
 		}
 		sid := id + "/shape:" + s.name
+		if tree, terr := gcore.TreeOf(t, mk()); terr == nil && !initialized(tree) {
+			continue // the shape reads as a message lacking required fields (a nil child of a type that has some): C17's business
+		}
 		x, y := mk(), mk()
 		w.evals++
 		var sz, sz2 int
